@@ -217,6 +217,9 @@ func (f *Frame) execInstr(in ssa.Instruction, reach string, st *State) {
 	case *ssa.MakeChan:
 		p := f.newObj(st, "chan")
 		f.define(x, p)
+		if _, ok := ghostHeaps["chanClosed"]; ok {
+			ctx.Fact(fmt.Sprintf("(not (select %s %s))", f.heap(st, "G_chanClosed"), p))
+		}
 	case *ssa.MakeClosure:
 		p := f.newObj(st, "closure")
 		n := f.define(x, p)
@@ -233,7 +236,7 @@ func (f *Frame) execInstr(in ssa.Instruction, reach string, st *State) {
 		mt := x.Type().Underlying().(*types.Map)
 		d, _ := mapHeaps(ctx, mt)
 		hd := f.heap(st, d)
-		hl := f.heap(st, "M_len")
+		hl := f.heap(st, mapLenHeap(ctx, mt))
 		ks := ctx.sortOf(mt.Key())
 		ctx.Fact(fmt.Sprintf("(= (select %s %s) ((as const (Array %s Bool)) false))", hd, p, ks))
 		ctx.Fact(fmt.Sprintf("(= (select %s %s) 0)", hl, p))
@@ -906,7 +909,7 @@ func (f *Frame) lookup(x *ssa.Lookup, reach string, st *State) {
 
 func (f *Frame) mapLenFacts(st *State, m string, mt *types.Map) {
 	d, _ := mapHeaps(f.ctx, mt)
-	hd, hl := f.heap(st, d), f.heap(st, "M_len")
+	hd, hl := f.heap(st, d), f.heap(st, mapLenHeap(f.ctx, mt))
 	ks := f.ctx.sortOf(mt.Key())
 	f.ctx.Fact(fmt.Sprintf("(>= (select %s %s) 0)", hl, m))
 	f.ctx.Fact(fmt.Sprintf("(forall ((k %s)) (! (=> (select (select %s %s) k) (>= (select %s %s) 1)) :pattern ((select (select %s %s) k))))", ks, hd, m, hl, m, hd, m))
@@ -924,9 +927,10 @@ func (f *Frame) mapUpdate(x *ssa.MapUpdate, reach string, st *State) {
 
 func (f *Frame) mapStore(st *State, m, k, v string, mt *types.Map, insert bool) {
 	d, vn := mapHeaps(f.ctx, mt)
-	hd, hv, hl := f.heap(st, d), f.heap(st, vn), f.heap(st, "M_len")
+	ln := mapLenHeap(f.ctx, mt)
+	hd, hv, hl := f.heap(st, d), f.heap(st, vn), f.heap(st, ln)
 	nd := f.ctx.Fresh("Mdom", heapSort(d))
-	nl := f.ctx.Fresh("Mlen", heapSort("M_len"))
+	nl := f.ctx.Fresh("Mlen", heapSort(ln))
 	was := fmt.Sprintf("(select (select %s %s) %s)", hd, m, k)
 	if insert {
 		nv := f.ctx.Fresh("Mval", heapSort(vn))
@@ -939,7 +943,7 @@ func (f *Frame) mapStore(st *State, m, k, v string, mt *types.Map, insert bool) 
 		f.ctx.Fact(fmt.Sprintf("(= %s (ite (= %s nil) %s (store %s %s (- (select %s %s) (ite %s 1 0)))))", nl, m, hl, hl, m, hl, m, was))
 	}
 	st.heaps[d] = nd
-	st.heaps["M_len"] = nl
+	st.heaps[ln] = nl
 }
 
 func (f *Frame) next(x *ssa.Next, reach string, st *State) {
